@@ -294,7 +294,8 @@ def small_trees(max_entries):
 class Config:
     def __init__(self, recursive=True, root_type="str", full=False, event_filter=None, early=False,
                  split_reads=False, second_filter=None, probes=True, faults=None, seam_points=True,
-                 outside_ops=True, root_form="abs", names="ascii"):
+                 outside_ops=True, root_form="abs", names="ascii", prior_flat=False):
+        self.prior_flat = prior_flat          # C11: a non-recursive watch with the same filter is started first
         self.root_form = root_form            # abs | rel | slash  (C19)
         self.names = names                    # ascii | utf8 | undecodable  (C19)
         self.recursive = recursive
@@ -315,6 +316,7 @@ class Config:
                 f"{'-names:' + self.names if self.names != 'ascii' else ''}"
                 f"{'-early' if self.early else ''}{'-split' if self.split_reads else ''}"
                 f"{'-filter=' + '+'.join(self.second_filter) if self.second_filter else ''}"
+                f"{'-priorflat' if self.prior_flat else ''}"
                 f"{'-faults=' + repr(sorted(self.faults.items())) if self.faults else ''}")
 
 
@@ -513,10 +515,17 @@ class HistoryHarness(ex.Harness):
                 root_arg = pathlib.Path(root_arg)
             filt = [getattr(evm, n) for n in cfg.event_filter] if cfg.event_filter else None
             obs.schedule(rec_into(events), root_arg, recursive=cfg.recursive, event_filter=filt)
-            if cfg.second_filter:
+            if cfg.second_filter and cfg.prior_flat:
+                # state shared between emitters (caches keyed by the filter) must not leak from one watch into another
+                obs.schedule(rec_into([]), O, recursive=False, event_filter=[getattr(evm, n) for n in cfg.second_filter])
+                obs.start()
                 obs.schedule(rec_into(events2), root_arg, recursive=cfg.recursive,
                              event_filter=[getattr(evm, n) for n in cfg.second_filter])
-            obs.start()
+            elif cfg.second_filter:
+                obs.schedule(rec_into(events2), root_arg, recursive=cfg.recursive,
+                             event_filter=[getattr(evm, n) for n in cfg.second_filter])
+            if not (cfg.second_filter and cfg.prior_flat):
+                obs.start()
             s.idle("drain")
             state = {"out": [], "n": 0}
             model = Model(self.tree0)
@@ -1056,7 +1065,7 @@ def replay_record(rec, checks):
                  root_form="rel" if "-rel" in tag else ("slash" if "-slash" in tag else ("dot" if "-dot" in tag else "abs")),
                  names=(tag.split("-names:")[1].split("-")[0] if "-names:" in tag else "ascii"),
                  second_filter=(tag.split("-filter=")[1].split("-faults")[0].split("+") if "-filter=" in tag else None),
-                 early="-early" in tag, split_reads="-split" in tag)
+                 early="-early" in tag, split_reads="-split" in tag, prior_flat="-priorflat" in tag)
     hist = [(tuple(op), pace) for op, pace in rec["history"]]
     h = HistoryHarness(rec["tree0"], hist, cfg)
     a = ex.run_one(h, bytes(rec.get("prefix") or []), record_desc=True)
